@@ -157,7 +157,7 @@ theorem add_in_index_order (cfg : Cfg) (s s' : State) (pw b c i size : Nat)
   repeat' split at hs
   all_goals (first | (cases hs; done) | skip)
   rename_i _ P hP _ B hB _ C hC hg
-  obtain ⟨-, -, -, -, -, -, -, -, -, hassign, -, -, hall⟩ := hg
+  obtain ⟨-, -, -, -, -, -, -, -, -, hassign, -, -, hall, -⟩ := hg
   refine ⟨P, C, hP, hC, hassign, ?_⟩
   intro j hj hja
   rw [List.all_eq_true] at hall
